@@ -332,8 +332,12 @@ class Suite:
        oracle(req, impl_out) -> None | str : property oracle evaluated on the implementation's own output
        nontrivial(req, out) -> bool
        env: extra environment for the harness"""
-    def __init__(self, name, gen, decisive=True, oracle=None, nontrivial=None, env=None, exhaustive=None, rule="", model=True):
+    def __init__(self, name, gen, decisive=True, oracle=None, nontrivial=None, env=None, exhaustive=None, rule="", model=True, project=None):
         self.name, self.gen, self.decisive, self.oracle = name, gen, decisive, oracle
+        # project() -> f(req, line) -> line : a (possibly stateful) projection applied to the model's and to the implementation's
+        # output separately before the two are compared, for observables that the property fixes only up to a renaming
+        # (e.g. bucket hashes: only "same hash <=> same period" matters). The oracle always sees the raw output.
+        self.project = project
         self.model = model  # False: oracle-only suite (end-to-end run of the implementation; no model output compared)
         self.nontrivial = nontrivial or (lambda req, out: out.startswith("ok"))
         self.env, self.exhaustive, self.rule = env, exhaustive, rule
@@ -386,6 +390,8 @@ def run_check(pid, tier, seed):
         source = itertools.chain(corpus.get(su.name, []), su.gen(tier, random.Random(rng.getrandbits(64))))
         mism, orc_fail = [], []
         dist, nreq, nnontriv, samples = {}, 0, 0, []
+        proj_i = su.project() if su.project else (lambda req, line: line)
+        proj_m = su.project() if su.project else (lambda req, line: line)
         # requests are processed in batches so that exhaustive enumerations of tens of millions of cases fit in memory
         while True:
             reqs = list(itertools.islice(source, BATCH))
@@ -408,7 +414,11 @@ def run_check(pid, tier, seed):
                     v = su.oracle(req, io)
                     if v:
                         bad = ("oracle", v)
-                if bad is None and io != mo:
+                if su.project:
+                    same = proj_i(req, io) == proj_m(req, mo)
+                else:
+                    same = io == mo
+                if bad is None and not same:
                     bad = ("mismatch", "model and implementation differ")
                 if bad:
                     k = match_known(known, pid, su.name, req, io, mod)
